@@ -1,6 +1,7 @@
 import Driver.C13
 import Driver.C04
 import Driver.C03
+import Driver.C05
 /-!
 Line-protocol driver: one request per line on stdin, one answer per line on stdout.
 Only model files are imported (no proofs, no Mathlib), so this links as a native executable.
@@ -17,6 +18,7 @@ def dispatch (line : String) : String :=
     | "drain" => cmdDrain args
     | "msg" => cmdMsg args
     | "frag" => cmdFrag args
+    | "sq" => cmdSq args
     | _ => "bad-op"
 
 partial def loop (h : IO.FS.Stream) (out : IO.FS.Stream) : IO Unit := do
